@@ -273,8 +273,55 @@ def check_file_indexed(kind, opts, seed, collect=3):
     return nops, bad
 
 
+def check_big_chunk(seed, collect=3):
+    """chunks of 20 000 values (beyond 2^13 and 2^14): after one index, a second index anywhere in the same chunk fetches nothing;
+    a single index fetches within its chunk"""
+    n = 20000
+    hist = [G.seg([(F.B, ['FULL', 'Int16', n]), (F.A, ['FULL', 'Int32', n])], chunks=2), G.seg([(F.A, ['FULL', 'Int32', 5])])]
+    data, _i, layout, _ref = G.encode(hist, seed=seed)
+    table = chunk_table(layout, F.A, None)
+    L = table[-1][2]
+    marks = [0, 5, 4095, 4096, 8191, 8192, 15000, 16383, 16384, n - 1]
+    idxs = marks + [n + m for m in marks] + [2 * n, L - 1]
+    bad, nops, seen = [], 0, {}
+    for i in idxs:
+        for j in idxs:
+            same_chunk = any(t[1] <= i < t[2] and t[1] <= j < t[2] for t in table)
+            for ii, jj in ((i, j), (i - L, j), (i, j - L)):
+                stream = RecordingStream(data)
+                tf = H.TdmsFile.open(stream)
+                try:
+                    ch = tf['g']['a']
+                    stream.reset()
+                    r1 = H.guarded(ch.__getitem__, ii)
+                    nops += 1
+                    out = outside(stream.log, allowed_ranges(layout, table, i, i + 1))
+                    if out and r1[0] == 'ok':
+                        seen['index'] = seen.get('index', 0) + 1
+                        if seen['index'] <= collect:
+                            bad.append(('index', ['bigchunk', ii], 'reads within the chunk of %d' % i, 'fetched outside: %r' % (out,)))
+                    stream.reset()
+                    r2 = H.guarded(ch.__getitem__, jj)
+                    nops += 1
+                    if r1[0] == 'ok' and r2[0] == 'ok' and same_chunk and stream.log:
+                        seen['cache'] = seen.get('cache', 0) + 1
+                        if seen['cache'] <= collect:
+                            bad.append(('cache', ['bigchunk', ii, 'then', jj], 'no read (same chunk)', 'fetched %r' % (stream.log[:4],)))
+                finally:
+                    tf.close()
+    return nops, bad
+
+
 def run_file(item):
     kind, opts, seed = item
+    if kind == 'bigchunk':
+        nops, bad = check_big_chunk(seed)
+        res = {'counters': {'files': 1, 'ops': nops, 'nontrivial': 1, 'multichunk': 1}, 'outcomes': {'clean' if not bad else 'over-read': 1},
+               'violations': [], 'samples': []}
+        for (k, op, exp, got) in bad:
+            res['violations'].append({'case': {'kind': 'bigchunk', 'opts': [], 'seed': seed, 'op': op, 'opkind': k}, 'expected': exp, 'observed': got,
+                                      'signature': {'kind': k, 'elem': 'bigchunk', 'gap': False}})
+        return res
     nops, bad = check_file(kind, opts, seed)
     if kind in ('int', 'il', 'str', 'be') and len(opts) >= 2:
         n3, bad3 = check_file_indexed(kind, opts, seed)
@@ -311,7 +358,7 @@ def files(tier):
 
 def run(ctx):
     from ..run import merge
-    items = [(k, o, ctx.seed) for k, o in files(ctx.tier)]
+    items = [(k, o, ctx.seed) for k, o in files(ctx.tier)] + [('bigchunk', (), ctx.seed)]
     items.sort(key=lambda it: -sum((o[0] * o[1]) if isinstance(o, tuple) else 0 for o in it[1]))
     m = merge(ctx.map(run_file, items))
     c = m['counters']
@@ -324,6 +371,10 @@ def run(ctx):
 
 
 def replay(case):
+    if case.get('kind') == 'bigchunk':
+        _n, bad = check_big_chunk(case.get('seed', 0), collect=10 ** 6)
+        hits = [b for b in bad if b[1] == case['op']]
+        return bool(hits), hits[0][2] if hits else 'within', hits[0][3] if hits else 'within'
     opts = tuple(tuple(o) if isinstance(o, list) else o for o in case['opts'])
     cut = case['op'][-1] if (len(case['op']) >= 2 and case['op'][-2] == 'cut') else None
     if case.get('opkind') == 'first-op-indexed':
